@@ -566,21 +566,15 @@ func (t *Terminal) handleKey(key rune) (line []string, ok bool) {
 		t.advanceCursor(visualLength(t.prompt))
 		t.setLine(t.line, t.pos)
 	case keyEnter:
-		strline := strings.TrimSpace(string(t.line))
+		// split string until queries terminated by ;
+		stmts, rest := splitStatements(t.line)
 		// if the last thing entered was a query terminator
-		if len(strline) == 0 || strline[len(strline)-1:] == ";" {
+		if len(strings.TrimSpace(string(rest))) == 0 {
 			// not sure what this is for
 			t.moveCursorToPos(len(t.line))
 			t.queue([]rune("\r\n"))
 
-			// split string until queries terminated by ;
-			begin := 0
-			for cur := 0; cur < len(t.line); cur++ {
-				if t.line[cur] == 59 {
-					line = append(line, strings.TrimSpace(string(t.line[begin:cur+1])))
-					begin = cur + 1
-				}
-			}
+			line = stmts
 
 			ok = true
 			t.line = t.line[:0]
@@ -623,6 +617,28 @@ func (t *Terminal) handleKey(key rune) (line []string, ok bool) {
 		t.addKeyToLine(key)
 	}
 	return
+}
+
+// splitStatements cuts line after every ';' that terminates a statement. a ';'
+// inside a quoted literal does not terminate a statement. rest is what follows
+// the last terminator.
+func splitStatements(line []rune) (stmts []string, rest []rune) {
+	begin := 0
+	quote := rune(0)
+	for cur := 0; cur < len(line); cur++ {
+		switch r := line[cur]; {
+		case quote != 0:
+			if r == quote {
+				quote = 0
+			}
+		case r == '\'' || r == '"':
+			quote = r
+		case r == ';':
+			stmts = append(stmts, strings.TrimSpace(string(line[begin:cur+1])))
+			begin = cur + 1
+		}
+	}
+	return stmts, line[begin:]
 }
 
 // addKeyToLine inserts the given key at the current position in the current
